@@ -171,7 +171,9 @@ impl LinkFlowState<role::ReceiverMarker> {
 
 
 // ReceiverLink<T>: only the field get_link_flow touches (R11: other fields elided; touching one is a compile error => undecided)
-pub struct ReceiverLink { pub flow_state: LinkFlowState<role::ReceiverMarker> }
+pub struct ReceiverLink { pub flow_state: LinkFlowState<role::ReceiverMarker>, pub output_handle: Option<OutputHandle>, pub session_stop_reason: OnceCell<SessionStopReason> }
+/// `pub type FlowError = IllegalLinkStateError;` -- the same two variants as DispositionError here
+pub type FlowError = DispositionError;
 
 impl ReceiverLink {
 //@@ fn file=fe2o3-amqp/src/link/receiver_link.rs impl=`impl<T> ReceiverLink<T>` name=get_link_flow
@@ -194,6 +196,26 @@ impl ReceiverLink {
             &&& r.echo == echo
             &&& r.available is None
             &&& r.properties == (if include_properties { s0.properties } else { None })
+        }),
+//@@ end
+
+//@@ fn file=fe2o3-amqp/src/link/receiver_link.rs impl=`~endpoint::ReceiverLinkforReceiverLink<Tar>` name=send_flow
+//@@ selfmut
+//@@ param writer : &mut ChanSender<LinkFrame>
+//@@ subst `let handle = self .output_handle .clone() .ok_or(FlowError::IllegalState)? .into();` => `let handle: Handle = output_to_handle(self.output_handle.clone().ok_or(FlowError::IllegalState)?);` rule=R16
+//@@ subst `|_v0|` => `|_v0: ChanSendError|` rule=R5
+//@@ spec
+    ensures
+        old(self).output_handle is None ==> r is Err && final(self).flow_state == old(self).flow_state && final(writer).sent@ == old(writer).sent@,   // [C09.flow.needs-handle] a link without an output handle (detached) sends no flow and records no credit
+        old(self).output_handle is Some ==> ({
+            let s0 = old(self).flow_state.lock;
+            let s1 = final(self).flow_state.lock;
+            &&& s1.link_credit == (if link_credit is Some { link_credit->Some_0 } else { s0.link_credit })
+            &&& s1.drain == (if drain is Some { drain->Some_0 } else { s0.drain })
+            &&& s1.delivery_count == s0.delivery_count
+            &&& (r is Ok ==> final(writer).sent@ == old(writer).sent@.push(LinkFrame::Flow(LinkFlow {
+                    handle: Handle(old(self).output_handle->Some_0.0), delivery_count: Some(s0.delivery_count), link_credit: Some(s1.link_credit),
+                    available: None, drain: s1.drain, echo, properties: (if include_properties { s0.properties } else { None }) })))   // [C09.flow.sent-as-recorded] the flow that goes to the sender carries exactly the credit and drain flag just recorded and the current delivery-count: what the receiver accounts and what the sender is told agree
         }),
 //@@ end
 }
@@ -288,7 +310,9 @@ pub struct DeliveryInfo { _p: u8 }
 #[verifier::external_body]
 pub struct DeliveryState2 { _p: u8 }
 /// the receiver link endpoint as ReceiverInner sees it: send_flow = get_link_flow + queueing the flow (unit LINKFLOW, get_link_flow)
-pub struct RLinkS { pub flows: Ghost<Seq<(Option<u32>, Option<bool>, bool, bool)>>, pub disposed: Ghost<Seq<nat>> }
+pub struct RFlowStateS { pub draining: bool }
+impl RFlowStateS { pub fn drain(&self) -> (r: bool) ensures r == self.draining { self.draining } }
+pub struct RLinkS { pub flows: Ghost<Seq<(Option<u32>, Option<bool>, bool, bool)>>, pub disposed: Ghost<Seq<nat>>, pub fs: RFlowStateS }
 impl RLinkS {
     #[verifier::external_body]
     pub fn send_flow(&mut self, writer: &mut ChanSender<LinkFrame>, link_credit: Option<u32>, drain: Option<bool>, echo: bool, include_properties: bool) -> (r: Result<(), DispositionError>)
@@ -296,6 +320,13 @@ impl RLinkS {
             r is Ok ==> final(self).flows@ == old(self).flows@.push((link_credit, drain, echo, include_properties)),
             r is Err ==> final(self).flows@ == old(self).flows@,
             final(self).disposed == old(self).disposed,
+    { unimplemented!() }
+    pub fn flow_state(&self) -> (r: &RFlowStateS) ensures *r == self.fs { &self.fs }
+    #[verifier::external_body]
+    pub fn dispose(&mut self, writer: &mut ChanSender<LinkFrame>, info: DeliveryInfo, settled: Option<bool>, state: DeliveryState2, batchable: bool) -> (r: Result<(), DispositionError>)
+        ensures
+            r is Ok ==> final(self).disposed@ == old(self).disposed@.push(1),
+            final(self).flows == old(self).flows,
     { unimplemented!() }
     #[verifier::external_body]
     pub fn dispose_all(&mut self, writer: &mut ChanSender<LinkFrame>, infos: Vec<DeliveryInfo>, settled: Option<bool>, state: DeliveryState2, batchable: bool) -> (r: Result<(), DispositionError>)
@@ -318,7 +349,7 @@ impl ReceiverInner {
             &&& fire ==> final(self).processed.v == 0
                 && (r is Ok ==> final(self).link.flows@ == old(self).link.flows@.push((Some(old(self).credit_mode->Auto_0), Some(false), false, false)))   // [C09.replenish.inner-top-up] at or above half: counter reset and a flow granting the full maximum (drain off) is sent
         }),
-        final(self).credit_mode == old(self).credit_mode,
+        final(self).credit_mode == old(self).credit_mode, final(self).link.disposed == old(self).link.disposed,
 //@@ end
 
 //@@ fn file=fe2o3-amqp/src/link/receiver.rs impl=`~impl<L>ReceiverInner<L>where` name=dispose_all
@@ -335,6 +366,45 @@ impl ReceiverInner {
             &&& fire ==> final(self).processed.v == 0
                     && final(self).link.flows@ == old(self).link.flows@.push((Some(old(self).credit_mode->Auto_0), Some(false), false, false))   // [C09.replenish.batch-counts-all] a batch disposal counts ALL its deliveries towards the top-up threshold (so disposing everything at once re-issues credit)
             &&& !fire ==> final(self).processed.v == old(self).processed.v + total && final(self).link.flows@ == old(self).link.flows@
+        }),
+//@@ end
+
+//@@ fn file=fe2o3-amqp/src/link/receiver.rs impl=`~impl<L>ReceiverInner<L>where` name=set_credit
+//@@ ret Result<(), DispositionError>
+//@@ subst `&self.outgoing` => `&mut self.outgoing` rule=R9
+//@@ spec
+    ensures
+        final(self).processed.v == 0,
+        old(self).credit_mode is Auto ==> final(self).credit_mode == CreditMode::Auto(credit),                  // [C09.set-credit.auto-max] in Auto mode the explicit credit becomes the new maximum the top-up restores
+        !(old(self).credit_mode is Auto) ==> final(self).credit_mode == old(self).credit_mode,
+        r is Ok ==> final(self).link.flows@ == old(self).link.flows@.push((Some(credit), Some(false), false, false)),   // [C09.set-credit.flow] set_credit sends exactly one flow granting exactly `credit`, with drain switched off
+//@@ end
+
+//@@ fn file=fe2o3-amqp/src/link/receiver.rs impl=`~impl<L>ReceiverInner<L>where` name=drain
+//@@ subst `&self.outgoing` => `&mut self.outgoing` rule=R9
+//@@ spec
+    ensures
+        final(self).processed.v == 0, final(self).credit_mode == old(self).credit_mode,
+        old(self).link.fs.draining ==> r is Ok && final(self).link.flows@ == old(self).link.flows@,              // [C09.drain.idempotent] draining while already draining sends nothing
+        !old(self).link.fs.draining && r is Ok ==> final(self).link.flows@ == old(self).link.flows@.push((None::<u32>, Some(true), false, false)),   // [C09.drain.flow] drain sends one flow with drain=true that leaves the credit as it is
+//@@ end
+
+//@@ fn file=fe2o3-amqp/src/link/receiver.rs impl=`~impl<L>ReceiverInner<L>where` name=dispose
+//@@ selfmut
+//@@ generics
+//@@ param delivery_info : DeliveryInfo
+//@@ subst `let delivery_info = delivery_info.into();` => `` rule=R16
+//@@ subst `state: DeliveryState,` => `state: DeliveryState2,` rule=R11
+//@@ subst `&self.outgoing` => `&mut self.outgoing` rule=R9
+//@@ spec
+    requires old(self).processed.v < 0x8000_0000,
+    ensures
+        r is Ok ==> ({
+            let fire = old(self).credit_mode is Auto && old(self).processed.v + 1 >= old(self).credit_mode->Auto_0 / 2;
+            &&& final(self).link.disposed@ == old(self).link.disposed@.push(1)
+            &&& fire ==> final(self).processed.v == 0
+                    && final(self).link.flows@ == old(self).link.flows@.push((Some(old(self).credit_mode->Auto_0), Some(false), false, false))   // [C09.replenish.single-counts-one] every single disposal counts one towards the top-up threshold
+            &&& !fire ==> final(self).processed.v == old(self).processed.v + 1 && final(self).link.flows@ == old(self).link.flows@
         }),
 //@@ end
 }
